@@ -69,6 +69,40 @@ class Deadlock(Exception):
     pass
 
 
+_CURRENT = [None]
+
+
+class SchedCond:
+    """Replacement for BufferedPipe._cv on the instance under test: wait() releases the buffer lock and
+    parks the calling thread in the scheduler until it has been notified and the lock is free, so a reader
+    blocked in recv() is an ordinary (disabled) thread of the deterministic schedule."""
+
+    def __init__(self, lock):
+        self.lock = lock
+        self.waiters = set()
+
+    def wait(self, timeout=None):
+        sched = _CURRENT[0]
+        t = sched.ident.get(threading.get_ident()) if sched is not None else None
+        if t is None:
+            raise RuntimeError("SchedCond.wait outside a scheduled thread (a read would block)")
+        if timeout is None:
+            self.waiters.add(t)
+        self.lock.release()
+        try:
+            sched._park(t, {"func": "Condition.wait", "line": 0, "text": "", "frame": None, "lock": None, "cond": self})
+        finally:
+            self.lock.acquire()
+        return True
+
+    def notify_all(self):
+        self.waiters.clear()
+
+    def notify(self, n=1):
+        for t in sorted(self.waiters)[:n]:
+            self.waiters.discard(t)
+
+
 class Sched:
     """Runs callables on real threads, exactly one at a time.  Switch points: thread start, every
     line event in paramiko/pipe.py, and lock-acquire lines in buffered_pipe.py / channel.py.  A
@@ -91,6 +125,7 @@ class Sched:
         self.threads = []
         self.fresh = {}             # t -> qualname of a pipe.py function just entered
         self.markers = []           # (t, qualname) in the order the first body line executed
+        self.ident = {}             # thread ident -> t
 
     # -- worker side -----------------------------------------------------------
     def _park(self, t, info):
@@ -158,6 +193,7 @@ class Sched:
         return glob
 
     def _body(self, t):
+        self.ident[threading.get_ident()] = t
         try:
             self._park(t, {"func": "<start>", "line": 0, "text": "", "frame": None, "lock": None})
             sys.settrace(self._tracer(t))
@@ -179,6 +215,7 @@ class Sched:
             raise RuntimeError("scheduler: a thread neither parked nor finished (untraced blocking?)")
 
     def start(self):
+        _CURRENT[0] = self
         for t in range(self.n):
             th = threading.Thread(target=self._body, args=(t,), daemon=True)
             self.threads.append(th)
@@ -196,6 +233,9 @@ class Sched:
         info = self.parked.get(t)
         if info is None:
             return False
+        if info.get("cond") is not None:
+            c = info["cond"]
+            return t not in c.waiters and not c.lock.locked()
         if _READ_RE.search(info["text"]):
             try:
                 slf = info["frame"].f_locals["self"]
@@ -508,6 +548,16 @@ def chan_apply(ch, op, variant=0):
             ch._handle_eof(None)
         else:
             ch._handle_close(None)
+    elif op == 10:
+        ch.set_combine_stderr(True)
+    elif op == 11:
+        ch.set_combine_stderr(False)
+    elif op == 12:
+        ch.fileno()
+    elif op == 13:
+        ch.recv(1 << 16)            # blocking (the channel of these setups has timeout None)
+    elif op == 14:
+        ch.recv_stderr(1 << 16)
 
 
 def close_channel_fds(ch):
@@ -524,13 +574,13 @@ def chan_sequential_case(rng, nops):
     """Returns (start, ops_for_model, readable_trace, final_flags, oracle_failure or None)."""
     ch = make_channel()
     try:
-        d1, d2, closed = rng.random() < 0.4, rng.random() < 0.4, rng.random() < 0.2
-        if d1:
-            ch._feed(b"stdout")
-        if d2:
-            ch._feed_extended(ext_msg(b"stderr"))
-        if closed:
-            ch._handle_eof(None)
+        # before fileno(): data, option changes (set_combine_stderr on / off), EOF, in any order
+        pre = []
+        for _ in range(rng.randrange(0, 4)):
+            pre.append(rng.choice([0, 2, 2, 10, 10, 11, 9]))
+        for op in pre:
+            chan_apply(ch, op, 0)
+        d1, d2, closed = len(ch.in_buffer) > 0, len(ch.in_stderr_buffer) > 0, bool(ch.eof_received)
         fd = ch.fileno()
         mops = []
         out = []
@@ -538,9 +588,16 @@ def chan_sequential_case(rng, nops):
         if is_readable(fd) != chan_wanted(ch):
             failure = ("fileno-initial-state", [], is_readable(fd), chan_wanted(ch))
         for _ in range(nops):
-            op = rng.choice([0, 0, 1, 2, 2, 3, 4, 4, 5, 5, 6, 7, 8, 9] if rng.random() < 0.8 else [0, 2, 4, 5])
+            op = rng.choice([0, 0, 1, 2, 2, 3, 4, 4, 5, 5, 6, 7, 8, 9, 10, 11] if rng.random() < 0.8 else [0, 2, 4, 5])
             variant = rng.randrange(2)
             mop = op
+            if op in (2, 3) and ch.combine_stderr:
+                mop = op - 2    # extended data is fed to the stdout buffer while combine_stderr is on
+            if op == 10:
+                # combine switched on: in_stderr_buffer.empty(), its data (if any) fed to stdout
+                mop = 6 if ch.combine_stderr else (10 if len(ch.in_stderr_buffer) > 0 else 8)
+            if op == 11:
+                mop = 6
             if op == 6:
                 buf = ch.in_buffer if variant == 0 else ch.in_stderr_buffer
                 if len(buf) < 2:
@@ -557,7 +614,8 @@ def chan_sequential_case(rng, nops):
         p = ch._pipe
         p1 = ch.in_buffer._event
         p2 = ch.in_stderr_buffer._event
-        out += [int(bool(p1._set)), int(bool(p2._set)), int(bool(p._set)), int(bool(p._forever)), pipe_bytes(fd)]
+        out += [int(bool(p1._set)) if p1 is not None else -1, int(bool(p2._set)) if p2 is not None else -1,
+                int(bool(p._set)), int(bool(p._forever)), pipe_bytes(fd)]
         return [int(d1), int(d2), int(closed)], mops, out, failure
     finally:
         close_channel_fds(ch)
@@ -567,11 +625,19 @@ class ChanEnv:
     """Concurrent run on a real Channel: thread 0 = transport thread (feeds, EOF / close),
     thread 1 = reader of stdout, thread 2 = reader of stderr."""
 
-    def __init__(self, pre, progs):
+    def __init__(self, pre, progs, late_fileno=False):
         self.ch = make_channel()
         for op, v in pre:
             chan_apply(self.ch, op, v)
-        self.fd = self.ch.fileno()
+        self.fd = None
+        if late_fileno:
+            # fileno() is called by one of the threads (op 12); reads block (timeout None) on a
+            # scheduler-aware condition variable
+            self.ch.settimeout(None)
+            for b in (self.ch.in_buffer, self.ch.in_stderr_buffer):
+                b._cv = SchedCond(b._lock)
+        else:
+            self.fd = self.ch.fileno()
         self.progs = progs
         self.fns = [self._thread(p) for p in progs]
 
@@ -582,6 +648,8 @@ class ChanEnv:
         return fn
 
     def observe(self, sched, dead):
+        if self.fd is None:
+            self.fd = self.ch.fileno()
         return {"readable": is_readable(self.fd), "wanted": chan_wanted(self.ch), "dead": dead,
                 "exc": {k: repr(v) for k, v in sched.exc.items()},
                 "lens": [len(self.ch.in_buffer), len(self.ch.in_stderr_buffer)],
@@ -604,6 +672,21 @@ def chan_setups(rng, count):
         t2 = [(rng.choice([5, 5, 6]), 1) for _ in range(rng.randrange(1, 3))]
         progs = [t0, t1, t2] if rng.random() < 0.6 else ([t0, t1] if rng.random() < 0.5 else [t0, t2])
         out.append((pre, progs))
+    return out
+
+
+def late_fileno_setups(thorough):
+    """(pre, progs): a reader blocked in recv / recv_stderr (or about to be), another thread calling
+    fileno() for the first time, the transport thread delivering data afterwards (every blocking read has
+    a feed or an EOF that releases it)."""
+    out = [([], [[(13, 0)], [(12, 0)], [(0, 0)]]),
+           ([], [[(14, 1)], [(12, 0)], [(2, 0)]]),
+           ([], [[(13, 0)], [(12, 0)], [(0, 0), (9, 0)]]),
+           ([], [[(13, 0), (14, 1)], [(12, 0)], [(0, 1), (2, 1)]])]
+    if thorough:
+        out += [([], [[(14, 1)], [(12, 0)], [(2, 0), (0, 0), (9, 0)]]),
+                ([(10, 0)], [[(13, 0)], [(12, 0), (11, 0)], [(2, 0), (9, 0)]]),
+                ([], [[(13, 0)], [(14, 1)], [(12, 0), (0, 0), (2, 0)]])]
     return out
 
 
@@ -646,8 +729,9 @@ def run(ctx):
                 "capped at 25 (quick) / 60 (thorough) schedules per setup) on real "
                 "PosixPipe/OrPipe "
                 "objects; (2) real Channel + stub transport, seeded random operation sequences run sequentially, "
-                "compared with the model after every operation; (3) real Channel, 2-3 threads, preemption-bounded "
-                "interleavings, oracle at quiescence.  A case is non-trivial when its schedule switches threads "
+                "(feeds, reads, empty(), EOF/close, set_combine_stderr on/off, also before fileno()) compared with the "
+                "model after every operation; (3) real Channel, 2-3 threads, preemption-bounded interleavings, oracle "
+                "at quiescence, including fileno() first called while a reader is blocked in recv/recv_stderr.  A case is non-trivial when its schedule switches threads "
                 "(1, 3) or has at least 2 operations (2).")
     ctx.trusted += ["model coq/Model/C24.v is hand-written; its atomic actions are identified with the critical "
                     "sections of paramiko/pipe.py by the scheduler-driven correspondence (order of first executed "
@@ -731,7 +815,7 @@ def run(ctx):
                 key, upto, r, w = failure
                 what = ("a zero-length feed makes the descriptor readable while recv would block" if key == "empty-feed-sets-event"
                         else "select() on Channel.fileno() disagrees with (stdout data or stderr data or EOF/closed)")
-                ctx.fail(key, what, case={"start": start, "ops": upto}, expected=w, observed=r)
+                ctx.fail(key, what, case={"start": start, "ops": upto, "seq_seed": seed, "nops": nops}, expected=w, observed=r)
         def compare_chan():
             bad = model_mm("run_chan", "(list Z * list Z)",
                            [("(%s, %s)" % (coq(s), coq(m)), o) for s, m, o in scases], 64)
@@ -745,13 +829,15 @@ def run(ctx):
 
         # ---- 3. channel level, concurrent (oracle) --------------------------------------------
         nrun = 0
-        for pre, progs in chan_setups(rng, 12 if ctx.thorough else 6):
-            gen = explore(lambda: ChanEnv(pre, progs), 2, 120 if ctx.thorough else 60)
+        setups = [(pre, progs, False) for pre, progs in chan_setups(rng, 12 if ctx.thorough else 6)]
+        setups += [(pre, progs, True) for pre, progs in late_fileno_setups(ctx.thorough)]
+        for pre, progs, late in setups:
+            gen = explore(lambda: ChanEnv(pre, progs, late), 2, (120 if ctx.thorough else 60) if not late else (80 if ctx.thorough else 30))
             for choices, obs in gen:
                 nrun += 1
-                case = {"pre": pre, "progs": progs, "schedule": choices}
+                case = {"pre": pre, "progs": progs, "schedule": choices, "late_fileno": late}
                 ctx.count(("chan", tuple(pre), repr(progs), tuple(choices)), nontrivial=len(set(choices)) > 1,
-                          kind="chan-conc")
+                          kind="chan-conc-late-fileno" if late else "chan-conc")
                 if obs["dead"] is not None:
                     ctx.fail("channel-op-blocks", "a channel operation blocks for ever inside the event maintenance",
                              case=case, observed=obs["dead"])
@@ -797,7 +883,7 @@ def replay(ctx, rep):
     elif "progs" in case:
         pre = [tuple(x) for x in case["pre"]]
         progs = [[tuple(x) for x in p] for p in case["progs"]]
-        env = ChanEnv(pre, progs)
+        env = ChanEnv(pre, progs, bool(case.get("late_fileno")))
         try:
             sched = Sched(env.fns)
             it = iter(case["schedule"])
